@@ -32,6 +32,8 @@ J event_to_json(const Event& e) {
     case OP_OFFSETS:
         o.set("pol", e.pol);
         o.set("per_method", e.per_method);
+        if (e.fresh_gen)
+            o.set("fresh_gen", e.fresh_gen);
         if (e.stale)
             o.set("stale", e.stale);
         if (e.meth >= 0) {
@@ -231,6 +233,7 @@ Event event_from_json(const J& o) {
     e.shared = (int)o.geti("shared", 0);
     e.encode = (int)o.geti("encode", 0);
     e.per_method = (int)o.geti("per_method", 0);
+    e.fresh_gen = (int)o.geti("fresh_gen", 0);
     e.stale = (int)o.geti("stale", 0);
     e.ppos = (int)o.geti("ppos", 0);
     e.pdelta = o.geti("pdelta", 0);
